@@ -284,3 +284,33 @@ Proof.
   - exact H2.
   - intros chosen. cbn [app]. rewrite holdout_tail, <- H1, mask_of_held. apply peq_refl.
 Qed.
+
+(* ---------------------------------------------------------------- the trace theorems, transferred to the source *)
+Theorem src_random_scorer_trace : forall plates answers, NoDup plates ->
+  (length plates <= length answers)%nat ->
+  run (src_random_scorer_score plates) answers
+  = Ok (Ok (map (fun xa => (fst xa, hd 0 (snd xa))) (combine plates answers)), map (fun _ => RRandom) plates).
+Proof.
+  intros plates answers Hnd Hl.
+  rewrite (peq_run_any _ _ _ _ _ (src_random_scorer_is_model plates Hnd)). unfold lift_ok.
+  rewrite run_bind_ret, (random_scorer_trace plates answers Hl). reflexivity.
+Qed.
+
+Theorem src_balanced_holdout_trace :
+  forall (Scr : Type) (scr_size : Scr -> Z) (scr_plates : Scr -> list plate_t)
+         (mk_keep mk_hold : Scr -> list bool -> result Scr) num den screen answers out reqs,
+  scr_size screen = zlen (concat (map fst (scr_plates screen))) ->
+  (forall pl i, In pl (scr_plates screen) -> In i (fst pl) -> 0 <= i < scr_size screen) ->
+  (num <? 0) || (den <? num) = false ->
+  run (src_balanced_holdout_prog Scr scr_size scr_plates mk_keep mk_hold num den screen) answers = Ok (out, reqs) ->
+  all_ok valid_answer reqs answers = true ->
+  reqs = map (balanced_holdout_req num den) (filter (fun pl => negb (snd pl)) (scr_plates screen)).
+Proof.
+  intros Scr scr_size scr_plates mk_keep mk_hold num den screen answers out reqs H1 H2 Hfr Hrun Hok.
+  pose proof (src_balanced_holdout_is_model Scr scr_size scr_plates mk_keep mk_hold num den screen H1 H2) as Heq.
+  rewrite Hfr in Heq.
+  pose proof (peq_run valid_answer _ _ _ Heq answers out reqs Hrun Hok) as Hm.
+  rewrite run_bind_ret in Hm.
+  destruct (run (balanced_holdout_prog (scr_plates screen) num den) answers) as [[x rs] | t] eqn:E; [| discriminate].
+  inversion Hm; subst. exact (balanced_holdout_trace _ _ _ _ _ _ E).
+Qed.
